@@ -99,7 +99,11 @@ func applyCorruption(tx *bbolt.Tx, c corruption) error {
 		if b, err = b.CreateBucketIfNotExists([]byte(c.Root)); err != nil {
 			return nil, err
 		}
-		return b.CreateBucketIfNotExists([]byte(c.Name))
+		name := c.Name
+		if sym, ok := lastKeyToSym[c.Root+"."+c.Name]; ok { // index paths use the symbol name
+			name = sym
+		}
+		return b.CreateBucketIfNotExists([]byte(name))
 	}
 	entBucket := func() *bbolt.Bucket {
 		b := top.Bucket([]byte(c.Root))
